@@ -290,6 +290,107 @@ def _matcher_t2(mm: ast.FunctionDef) -> str:
     return out
 
 
+# ---------------------------------------------------------------- statement pins (whole functions / classes)
+
+def _strip_docs(node: ast.AST) -> ast.AST:
+    import copy
+    node = copy.deepcopy(node)
+    for n in ast.walk(node):
+        if isinstance(n, (ast.FunctionDef, ast.ClassDef, ast.Module)) and n.body and isinstance(n.body[0], ast.Expr) \
+                and isinstance(n.body[0].value, ast.Constant) and isinstance(n.body[0].value.value, str):
+            n.body = n.body[1:] or [ast.Pass()]
+    return node
+
+
+def _module_assign(mod: ast.Module, name: str) -> ast.AST:
+    for n in mod.body:
+        if isinstance(n, ast.Assign) and any(isinstance(t_, ast.Name) and t_.id == name for t_ in n.targets):
+            return n
+        if isinstance(n, ast.AnnAssign) and isinstance(n.target, ast.Name) and n.target.id == name:
+            return n
+    raise px.Unsupported(f"module-level {name} not found")
+
+
+def _members(cls: ast.ClassDef, names: list[str]) -> list[ast.AST]:
+    out = [n for n in cls.body if isinstance(n, ast.FunctionDef) and n.name in names]
+    missing = set(names) - {n.name for n in out}
+    if missing:
+        raise px.Unsupported(f"{cls.name}: methods not found: {sorted(missing)}")
+    return out
+
+
+def _pin_text(items: list[tuple[str, ast.AST]], holes: dict, subs: list[tuple[str, str]] = ()) -> str:
+    out = []
+    for label, node in items:
+        t_ = px.skeleton(_strip_docs(node), holes)
+        for pat, rep in subs:
+            t_ = re.sub(pat, rep, t_, flags=re.M)
+        out.append(f"## {label}\n{t_}")
+    return "\n".join(out) + "\n"
+
+
+SAFE_SUB = (r"safe=(\"(?:[^\"\\\\]|\\\\.)*\"|'(?:[^'\\\\]|\\\\.)*')", "safe=<SAFE-TRANSLATED>")
+
+
+def statement_pins(conv: ast.Module, rules: ast.Module, matcher: ast.Module, mapm: ast.Module) -> None:
+    """Everything of the routing code the hand-written models (coq/C03/Trie.v, C03/Model.v, C04/Model.v, C04/Factories.v,
+    C12/Model.v) and the harness oracles stand for and that is NOT translated into Gen.v is compared, as normalised source
+    text (layout, comments, docstrings do not matter), with the committed pins tools/pins/c03_*.txt.  Holes mark the
+    expressions that are translated (T1 constants, T2 decision functions): an edit there changes Gen.v and meets the proofs."""
+    # --- matcher.py: State, the bookkeeping of add / update, and match with the translated tests of _match as holes
+    sm = px.find_class(matcher, "StateMachineMatcher")
+    mm = _method(sm, "match")
+    holes = {}
+    for n in ast.walk(mm):
+        if isinstance(n, ast.For) and _norm(n.iter) in ("state.rules", "state.static[''].rules"):
+            for i_ in ast.walk(n):
+                if isinstance(i_, ast.If):
+                    holes[ast.unparse(i_.test)] = "<RULE-LOOP-TEST T2>"
+        if isinstance(n, ast.If) and ("self.merge_slashes" in _norm(n.test) or "rv[0].merge_slashes" in _norm(n.test)):
+            holes[ast.unparse(n.test)] = "<SECOND-PASS-TEST T2>"
+    px.check_pin("C03", "c03_matcher.txt",
+                 _pin_text([("SlashRequired", px.find_class(matcher, "SlashRequired")), ("State", px.find_class(matcher, "State")),
+                            ("StateMachineMatcher", sm)], holes),
+                 "routing/matcher.py (State, StateMachineMatcher.__init__ / add / update / match)")
+    # --- converters.py: every converter class; regex / weight / part_isolating constants and the NumberConverter tests are translated
+    classes = {n.name: n for n in conv.body if isinstance(n, ast.ClassDef)}
+    nholes = {}
+    ntp = _method(classes["NumberConverter"], "to_python")
+    for n in ast.walk(ntp):
+        if isinstance(n, ast.If):
+            nholes[ast.unparse(n.test)] = "<NUMBER-REJECT-TEST T2>"
+    items = [(k, classes[k]) for k in ("ValidationError", "BaseConverter", "UnicodeConverter", "AnyConverter", "PathConverter", "NumberConverter",
+                                       "IntegerConverter", "FloatConverter", "UUIDConverter")]
+    items.append(("DEFAULT_CONVERTERS", _module_assign(conv, "DEFAULT_CONVERTERS")))
+    px.check_pin("C03", "c03_converters.txt",
+                 _pin_text(items, nholes, [SAFE_SUB, (r"^(\s*)(regex|weight|part_isolating) = .*$", r"\1\2 = <T1>")]),
+                 "routing/converters.py (converter classes)")
+    # --- rules.py: the rule grammar tables, the factories, and Rule
+    rule_cls = px.find_class(rules, "Rule")
+    items = [(k, _module_assign(rules, k)) for k in ("_part_re", "_simple_rule_re", "_converter_args_re", "_PYTHON_CONSTANTS",
+                                                     "_CALL_CONVERTER_CODE_FMT", "_IF_KWARGS_URL_ENCODE_CODE", "_IF_KWARGS_URL_ENCODE_AST",
+                                                     "_URL_ENCODE_AST_NAMES")]
+    items += [(k, px.find_def(rules, k)) for k in ("_find", "_pythonize", "parse_converter_args", "_prefix_names")]
+    items += [(k, px.find_class(rules, k)) for k in ("Weighting", "RulePart", "RuleFactory", "Subdomain", "Submount", "EndpointPrefix",
+                                                     "RuleTemplate", "RuleTemplateFactory")]
+    items += [("Rule." + f.name, f) for f in _members(rule_cls, [
+        "__init__", "empty", "get_empty_kwargs", "get_rules", "refresh", "bind", "get_converter", "_encode_query_vars", "_parse_rule",
+        "compile", "_get_func_code", "_compile_builder", "build", "provides_defaults_for", "suitable_for", "build_compare_key", "__eq__"])]
+    px.check_pin("C03", "c03_rules.txt", _pin_text(items, {}, [SAFE_SUB]), "routing/rules.py (grammar tables, rule factories, Rule)")
+    # --- map.py: Map (construction flags, add / update / bind / bind_to_environ) and MapAdapter (match, build and the redirects)
+    mp, ma = px.find_class(mapm, "Map"), px.find_class(mapm, "MapAdapter")
+    items = [("Map." + f.name, f) for f in _members(mp, ["__init__", "merge_slashes", "_rules", "iter_rules", "add", "bind", "bind_to_environ", "update"])]
+    items += [("MapAdapter." + f.name, f) for f in _members(ma, [
+        "__init__", "match", "get_host", "get_default_redirect", "encode_query_args", "make_redirect_url", "make_alias_redirect_url",
+        "_partial_build", "build", "allowed_methods", "test"])]
+    px.check_pin("C03", "c03_map.txt", _pin_text(items, {}, [SAFE_SUB]), "routing/map.py (Map, MapAdapter)")
+    # --- glue of the query extras (C04): werkzeug.urls._urlencode and iter_multi_items
+    urls, ds = px.load("urls.py"), px.load("datastructures/structures.py")
+    px.check_pin("C03", "c03_glue.txt",
+                 _pin_text([("urls._urlencode", px.find_def(urls, "_urlencode")), ("structures.iter_multi_items", px.find_def(ds, "iter_multi_items"))], {}),
+                 "werkzeug.urls._urlencode / datastructures.iter_multi_items")
+
+
 # ---------------------------------------------------------------- main generator
 
 def routing_gen_text() -> str:
@@ -601,6 +702,8 @@ def routing_gen_text() -> str:
     esc = [c for c in range(128) if re.escape(chr(c)) != chr(c)]
     _expect(all(re.escape(chr(c)) == "\\" + chr(c) for c in esc), "re.escape no longer prefixes a backslash")
     _expect(all(re.escape(chr(c)) == chr(c) for c in (0x80, 0xe9, 0x3b1, 0x20ac, 0x1f600)), "re.escape escapes non-ASCII")
+
+    statement_pins(conv, rules, matcher, mapm)
 
     S = px.coq_string_codes
     out = px.HEADER.format(tool="c03.py", src="routing/converters.py, rules.py, matcher.py, map.py")
@@ -1704,6 +1807,14 @@ def main(chk: Check) -> None:
         chk.cov["obligations"] += 1
     chk.trusted += [
         "translator tools/c03.py + tools/pyextract.py (converter regex texts, weights, part_isolating, safe= strings, NumberConverter rejection tests as T2 decision functions, statement pins of _parse_rule / add / update / _match / MapAdapter.match / make_redirect_url; Unicode \\d runs, re.escape specials and urllib.parse.uses_netloc tabulated from the interpreter)",
+        "statement pins tools/pins/c03_matcher.txt, c03_converters.txt, c03_rules.txt, c03_map.txt, c03_glue.txt: whole functions / classes of routing/matcher.py "
+        "(State, StateMachineMatcher), converters.py (all converter classes), rules.py (grammar regexes, parse_converter_args, Weighting, RulePart, the rule "
+        "factories, Rule.__init__ .. build_compare_key), map.py (Map.__init__ / add / update / bind / bind_to_environ, MapAdapter.__init__ / match / get_host / "
+        "get_default_redirect / encode_query_args / make_redirect_url / make_alias_redirect_url / _partial_build / build), urls._urlencode, iter_multi_items - "
+        "compared as normalised source text with holes at the translated expressions; the hand-written models were written against these texts",
+        "validated differentially only (CPython library code, not werkzeug code, so no pin): the re engine on the generated regexes, str.split / join / "
+        "lstrip, list.sort, dict order, urllib.parse quote / unquote / urlunsplit / urljoin / urlencode / parse_qsl, string.Template.substitute, uuid.UUID, "
+        "int() / float() / str(); routing/exceptions.py (RequestRedirect, NoMatch, ...) only carries the outcome to the harness",
         "extraction ExtrOcamlBasic + tools/conv.ml + coq/C03/driver.ml, OCaml 4.13.1",
         "converter regex languages as hand-written predicates (Appendix A: literal . converter . literal \\Z has a unique middle), validated differentially against CPython re through werkzeug",
         "list.sort(key=weight) modelled by a stable insertion sort; dict lookup of static transitions by an association list with unique keys",
